@@ -199,6 +199,18 @@ Proof.
 Qed.
 Print Assumptions C33_pipe_internal_only_after_exec.
 
+(** the pooled batch buffer of clusterClient.DoMulti / DoMultiCache (its array is what the pipe's ring slot points at):
+    it goes back to the pool only when every member of the batch got a reply, in particular never while a member
+    was abandoned in the queue *)
+Theorem C33_cluster_batch_buffer : forall members,
+  batch_no_early_recycle (run_batch members) = true /\
+  (recycled (run_batch members) = true <-> forall o, In o members -> member_replied o = true).
+Proof.
+  intros members. split; [apply batch_no_early|].
+  rewrite batch_recycled_iff. unfold batch_clean. apply forallb_forall.
+Qed.
+Print Assumptions C33_cluster_batch_buffer.
+
 Example C33_nonvacuous_life :
   exists tr, run_life KSingle false [EvAttempt OutReply] = Some tr /\ recycled tr = true
   /\ exists tr2, run_life KSingle false [EvAttemptAgain OutTransportError; EvAttempt OutAbandoned] = Some tr2 /\ recycled tr2 = false.
